@@ -107,15 +107,13 @@ Definition visible_file (n : string) : bool :=
   negb (n =? "") && negb (has_prefix "." n) && negb (has_prefix "_" n).
 
 (* a skeleton of the grammar: type names (package-level and function-local) are
-   identifiers and pairwise distinct, file names are visible to the go tool and
-   pairwise distinct, an alias declaration has a type name on its right-hand
-   side (not a struct/interface literal) *)
+   identifiers and pairwise distinct (as the Go compiler demands of the
+   package-level ones), file names are visible to the go tool and pairwise distinct *)
 Definition wf_pkgb (p : pkg) : bool :=
   nodupb (map ts_name (walk_pkg p)) &&
   forallb is_ident (map ts_name (walk_pkg p)) &&
   nodupb (map f_name (p_files p)) &&
-  forallb visible_file (map f_name (p_files p)) &&
-  forallb (fun t => negb (ts_alias t) || match ts_rhs t with RNamed => true | _ => false end) (walk_pkg p).
+  forallb visible_file (map f_name (p_files p)).
 
 (* the flag record of a real command line: an explicit -type list forces one file per type *)
 Definition flags_okb (fl : cflags) : bool := implb (fl_specified fl) (fl_sep fl).
